@@ -255,10 +255,16 @@ def feature(t, s, ver):
             if n >= 4:
                 body = sign + '9999' + rest[n:]
         shape = ''.join('9' if c in '0123456789' else c for c in body)
+        if '.9' in shape:          # any number of fraction digits
+            i = shape.index('.9')
+            j = i + 1
+            while j < len(shape) and shape[j] == '9':
+                j += 1
+            shape = shape[:i] + '.9' + shape[j:]
         if shape in _date_shapes(t):
             if len(ydigits) > 4 and ydigits[0] == '0':
                 return 'year-leading-zero'
-            if ydigits == '0000' and X.is_valid(t, core.replace('0000', '0004', 1), ver) is True:
+            if ydigits == '0000' and X.is_valid(t, core.replace('0000', '0004', 1), ver) is not False:
                 return 'year-zero'
             return 'date-range'
     if t in G.DURATION_TYPES and X.is_valid('duration', core, ver) is True and X.is_valid(t, core, ver) is False:
@@ -279,7 +285,7 @@ def _date_shapes(t):
                 'gYearMonth': '9999-99', 'gYear': '9999', 'gMonthDay': '--99-99', 'gDay': '---99', 'gMonth': '--99'}[t]
         got = set()
         for sign in ('', '-') if base.startswith('9999') else ('',):
-            for frac in ('', '.9', '.99', '.999', '.9999', '.99999', '.999999') if base.endswith('99:99:99') else ('',):
+            for frac in ('', '.9') if base.endswith('99:99:99') else ('',):
                 for tz in ('', 'Z', '+99:99', '-99:99'):
                     got.add(sign + base + frac + tz)
         _SHAPES[t] = got
@@ -704,7 +710,7 @@ def selftest():
 
 def jobs(tier, seed):
     q = tier == 'quick'
-    plan = {'lex': (7, 900 if q else 12000), 'canon': (3, 700 if q else 9000), 'cast': (6, 700 if q else 9000)}
+    plan = {'lex': (7, 900 if q else 8000), 'canon': (3, 700 if q else 6000), 'cast': (6, 700 if q else 6000)}
     out = []
     for chk, (shards, n) in plan.items():
         for i in range(shards):
